@@ -205,9 +205,12 @@ struct Explored {
     /// arrival order -> one action path producing it
     orders: Vec<(Vec<u32>, Vec<Action>)>,
     problems: Vec<String>,
+    /// the state cap was hit: the enumeration of this program is incomplete
+    capped: bool,
+    total_orders: usize,
 }
 
-fn explore(p: &Program, w: usize, cap_orders: Option<usize>) -> Explored {
+fn explore(p: &Program, w: usize, cap_orders: Option<usize>, max_states: usize) -> Explored {
     let init = MState { pc: 0, dispatch: VecDeque::new(), held: BTreeSet::new(), free: w, in_flight: 0, arrived: vec![], blocked: false };
     let mut seen: HashSet<MState> = HashSet::new();
     let mut orders: HashMap<Vec<u32>, Vec<Action>> = HashMap::new();
@@ -215,7 +218,12 @@ fn explore(p: &Program, w: usize, cap_orders: Option<usize>) -> Explored {
     let mut transitions = 0;
     let mut stack: Vec<(MState, Vec<Action>)> = vec![(init.clone(), vec![])];
     seen.insert(init);
+    let mut capped = false;
     while let Some((s, path)) = stack.pop() {
+        if seen.len() > max_states {
+            capped = true;
+            break;
+        }
         if s.in_flight > 2 * w || s.in_flight != s.dispatch.len() + s.held.len() {
             problems.push(format!("invariant broken in {s:?}"));
         }
@@ -248,6 +256,7 @@ fn explore(p: &Program, w: usize, cap_orders: Option<usize>) -> Explored {
     }
     let mut orders: Vec<(Vec<u32>, Vec<Action>)> = orders.into_iter().collect();
     orders.sort();
+    let total_orders = orders.len();
     if let Some(cap) = cap_orders {
         if orders.len() > cap {
             // identity, reverse-most, rotated: keep a spread
@@ -256,7 +265,7 @@ fn explore(p: &Program, w: usize, cap_orders: Option<usize>) -> Explored {
             orders = keep.into_iter().map(|i| orders[i].clone()).collect();
         }
     }
-    Explored { states: seen.len(), transitions, orders, problems }
+    Explored { states: seen.len(), transitions, orders, problems, capped, total_orders }
 }
 
 // ------------------------------------------------------------------ the director
@@ -562,7 +571,13 @@ fn child(args: &Args) -> ! {
                 continue;
             }
         }
-        let ex = explore(&p, w, if w > 3 { Some(6) } else if t { None } else { Some(40) });
+        let ex = explore(&p, w, if w > 3 { Some(6) } else if t { Some(3000) } else { Some(40) }, 2_000_000);
+        if ex.capped {
+            rep.cap(&format!("W={w} program {}: the model enumeration stopped at {} states (cap); its invariants and arrival orders are covered for the explored part only", p.name, ex.states));
+        }
+        if ex.total_orders > ex.orders.len() {
+            rep.cap(&format!("W={w} program {}: {} of {} arrival orders replayed (evenly spread selection)", p.name, ex.orders.len(), ex.total_orders));
+        }
         rep.states += ex.states as u64;
         rep.transitions += ex.transitions as u64;
         for pr in &ex.problems {
@@ -627,7 +642,7 @@ fn main() {
     let mut rep = Report::new(
         "pipemc",
         "C08",
-        "explicit-state model of the cluster pipeline (main, FIFO dispatch queue, W eager workers, in-flight counter with back-pressure at 2W, FIFO fusion queue, writer): all reachable states are enumerated with their invariants, and every distinct arrival order at the writer (quick: at most 40 per program; W>=4: 6 per program) is replayed on the unmodified implementation with real threads, gated through the Progress callbacks; programs: k in 2..3 (quick) / 2..5 (thorough) compressed clusters with 0..2 raw clusters in every position, and 2W+2 clusters (beyond the back-pressure limit); W in {1,2,3} (+ {7,15} thorough); oracle per replay: terminates, opens, every address resolves to its bytes, counts, check(), cluster order in the file == forced arrival order; non-trivial = an arrival order different from the cluster id order",
+        "explicit-state model of the cluster pipeline (main, FIFO dispatch queue, W eager workers, in-flight counter with back-pressure at 2W, FIFO fusion queue, writer): all reachable states are enumerated with their invariants, and every distinct arrival order at the writer (quick: at most 40 per program; thorough: at most 3000 per program; W>=4: 6 per program; 2 000 000 model states per program, caps reported) is replayed on the unmodified implementation with real threads, gated through the Progress callbacks; programs: k in 2..3 (quick) / 2..5 (thorough) compressed clusters with 0..2 raw clusters in every position, and 2W+2 clusters (beyond the back-pressure limit); W in {1,2,3} (+ {7,15} thorough); oracle per replay: terminates, opens, every address resolves to its bytes, counts, check(), cluster order in the file == forced arrival order; non-trivial = an arrival order different from the cluster id order",
     );
     let t = args.thorough();
     let ncpu = std::thread::available_parallelism().map(|x| x.get()).unwrap_or(4);
